@@ -164,7 +164,8 @@ def run(ctx):
     t0 = time.time()
     ctx.rule = ("generated triangles as in C05 (<=136 keys) cross-checked against the independent Python v1 codec "
                 "in both directions, 2 random permutations of the cells each, 22 corrupted headers each for every "
-                "8th; history = 6 pinned files in /verif/golden + the 5 shipped .trib files, decoded by the "
+                "8th; write sequences (2-3 triangles sharing Metadata with shifted pool indices, both orders, both "
+                "flavours, vs a fresh interpreter); history = 6 pinned files in /verif/golden + the 5 shipped .trib files, decoded by the "
                 "implementation, the independent decoder and the model's parse; non-trivial = >= 2 cells")
     ctx.audit_tree([f for f in B.MY_COQ_FILES if (B.Path("/verif/coq") / f).exists()])
     B.prove_static_local(ctx, "Props/C06.v")
@@ -204,6 +205,27 @@ def run(ctx):
                                   finding_class=F9_CLASS if B.uses_0x88_index(small) else None)
             if i < 2 and wt:
                 ctx.sample({"summary": s, "first_cell": wt[0]})
+
+        # write sequences: each file written in one process must be the layout of ITS triangle and equal the
+        # bytes a fresh interpreter writes (no writer state leaks from one file into the next)
+        n_seq = 6 if ctx.quick else 40
+        rs = random.Random(ctx.seed * 131 + 7)
+        seqs = [B.gen_write_sequence(rs) for _ in range(n_seq)]
+        fresh_all = B.fresh_bytes([wt for sq in seqs for wt in sq])
+        pos = 0
+        n_seq_bad = 0
+        for sq in seqs:
+            fresh = fresh_all[pos:pos + len(sq)]
+            pos += len(sq)
+            bad = B.sequence_oracle(sq, scratch, fresh=fresh)
+            ctx.hist("write_sequence")
+            ctx.count(evaluations=8 * len(sq), traces=len(sq))
+            ctx.nontriv(("seq", repr(sq)))
+            if bad is not None:
+                n_seq_bad += 1
+                if n_seq_bad <= 2:
+                    ctx.violation("impl-violation", bad[0], {"sequence": sq, "check": "sequence", **bad[1]},
+                                  found_input=True)
 
         # F9 probe: the layout itself is ambiguous for pool indices with low byte 0x88
         f9 = B.canon_triangle(B.mk_triangle(B.gen_f9_triangle(137)))
@@ -279,6 +301,16 @@ def replay(ctx, data):
                     print(f"replaying history file {name} on {REPO}:", "PROPERTY FAILS: " + bad[0] if bad else "decodes to its recorded contents")
                     return 1 if bad else 0
             print("unknown golden entry", data["golden"])
+            return 1
+        if "sequence" in data:
+            sq = data["sequence"]
+            print(f"replaying a write sequence of {len(sq)} triangles on {REPO} (order {data.get('order')}, "
+                  f"shared objects {data.get('share')}, compressed {data.get('compress')})")
+            bad = B.sequence_oracle(sq, scratch, orders=[data["order"]] if "order" in data else None)
+            if bad is None:
+                print("every file of the sequence round-trips, is the layout of its triangle and equals a fresh write")
+                return 0
+            print("PROPERTY FAILS:", bad[0], bad[1])
             return 1
         wt = data.get("wt")
         if wt is None:
